@@ -150,6 +150,7 @@ def run(chk, replay=None):
                     steps.append({"action": "Formulate", "args": (), "state": st["state"]})
             if not steps or steps[-1]["action"] != "Formulate":
                 steps.append({"action": "Formulate", "args": (), "state": (steps[-1] if steps else beh[0])["state"]})
+            desync = False
             for st in steps:
                 a, args = st["action"], st["args"]
                 if a == "AssignName":
@@ -163,6 +164,7 @@ def run(chk, replay=None):
                 elif a in ("AssignDecay", "AssignTuple"):
                     dk = real_decay(args[0])
                     if dk not in where:
+                        desync = True  # the model took a step the driver cannot execute: stop comparing selector states
                         continue  # a decay of a symmetrised graph only: not addressable through (transition, node)
                     i, node = where[dk]
                     # AssignDecay and AssignTuple have the same effect in DynSel (TLC labels the step with either):
@@ -187,7 +189,7 @@ def run(chk, replay=None):
                     chk.count(1)
                     chk.nontrivial((label, tuple(sorted((str(k), getattr(v, "tag", "none")) for k, v in sel.items() if getattr(v, "tag", None)))))
                 # spec -> code conformance of the selector state (only when the name mapping is injective)
-                if len(names) >= 3 and a != "AssignUnknownName":
+                if len(names) >= 3 and a != "AssignUnknownName" and not desync:
                     want = st["state"]["choice"]
                     for d in range(1, 7):
                         lst = byname[real_name(((d - 1) % 3) + 1)]
